@@ -308,6 +308,8 @@ class Dict(dict, base.Symbolic, pg_typing.CustomTyping):
     """
     if value_spec is None:
       self._value_spec = None
+      # NOTE: missing / non-default values are derived from the spec.
+      self._sym_reset_content_caches()
       return self
 
     if not isinstance(value_spec, pg_typing.Dict):
